@@ -63,6 +63,7 @@ class World:
             warnings.simplefilter("ignore")
             self.m = mk(self.P, self.np)
         self.vars, self.bcs = {}, {}
+        self.views = {}      # (id of BC object, side) -> (BC object, held slice view of its c array)
         # how CellVariables are constructed in this world: from interior values (float), or from a ghost-inclusive
         # array whose ghost layer is consistent with the BCs (float; integer-typed where every entry is integral)
         self.style = ("interior", "ghost", "ghost_int")[(grid_index // len(GRIDS)) % 3]
@@ -314,6 +315,13 @@ def step(W, name, args, rec, judge, ctx, wit, before_vars):
             face.c = 10.0 + x
         elif how == "slice":
             face.c[tuple(slice(0, 1) for _ in face.c.shape)] = 20.0 + x
+        elif how == "view":
+            # a slice view of face.c taken once and HELD by the program across solves (the view has a private
+            # TrackedArray flag that apply_BCs cannot reset); every "view" edit of this side writes through it
+            key = (id(W.bcs[b]), s)
+            if key not in W.views:
+                W.views[key] = (W.bcs[b], face.c[tuple(slice(0, 1) for _ in face.c.shape)])
+            W.views[key][1][...] = 50.0 + x
         elif how == "utility":
             face.newtonCooling(1.0, 3.0, 30.0 + x)
         elif how == "aonly":
